@@ -110,6 +110,38 @@ def linearBuild (baseRxns : List (Name × List (Name × Int))) (lv : List (Name 
   let groups ← maps.mapM fun km => linRxnsOf isos baseRxns km.1 km.2
   pure { vars, rxns := groups.flatten }
 
+/-- the reading of a map that `LabelMapper` and the documentation use: product position `i` is fed
+    by (padded) substrate position `labelmap[i]` -/
+def documentedSources (subs : List Slot) (labelmap : List Nat) : List Slot :=
+  labelmap.map fun i => subs.getD i Slot.ext
+
+/-- amount of compound `x` (with `n` positions) that is labelled at position `i` -/
+def margOf (σ : Mxl.C05.LName → Rat) (x : Name) (n i : Nat) : Rat :=
+  Mxl.C05.sumMap (Mxl.C05.patterns n) fun u => if u.getD i false then σ ⟨x, some u⟩ else 0
+
+/-- the label positions of a list of compound occurrences, in order (what the linear mapper's
+    `[j for i in cs for j in isotopomers[i]]` lists when every compound has labels) -/
+def slotsFlat (lv : List (Name × Nat)) (cs : List Name) : List Slot :=
+  cs.flatMap fun c => (List.range (Mxl.C05.labelsOf lv c)).map (Slot.pos c)
+
+/-- 1 if the bit is set, else 0 -/
+def ind (b : Bool) : Rat := if b then 1 else 0
+
+/-- the rate suffix (substrate pattern followed by the external 1s) an isotopomer reaction is
+    named after -/
+def suffixOf (rx : Mxl.C05.LRxn) : Mxl.C05.Label := rx.name.lab.getD []
+
+/-- positional enrichment of an isotopomer state: labelled amount / pool size; the external pool
+    is fully labelled -/
+def enrichOf (lv : List (Name × Nat)) (σ : Mxl.C05.LName → Rat) : Slot → Rat
+  | .ext => 1
+  | .pos c i => margOf σ c (Mxl.C05.labelsOf lv c) i / Mxl.C05.totalOf σ c (Mxl.C05.labelsOf lv c)
+
+/-- the substrate positions of a reaction padded with `EXT` up to the product positions -/
+def paddedSubs (lv : List (Name × Nat)) (r : Mxl.C05.BRxn) : List Slot :=
+  slotsFlat lv (Mxl.C05.subsOf r)
+    ++ List.replicate ((slotsFlat lv (Mxl.C05.prodsOf r)).length - (slotsFlat lv (Mxl.C05.subsOf r)).length) Slot.ext
+
 /-! ### numeric reading -/
 
 def Slot.base : Slot → Name
